@@ -1,5 +1,5 @@
 (* Proofs about Model/Comments.v (the Go code) and Model/ProtocComments.v (protoc): properties C03, C23. *)
-From Coq Require Import List NArith ZArith Bool Arith Lia.
+From Coq Require Import List NArith ZArith Bool Arith Lia FinFun.
 From PV Require Import Common.Bytes Common.Corr Model.Lexer Model.Comments Model.ProtocComments.
 Import ListNotations.
 Open Scope N_scope.
@@ -231,4 +231,1337 @@ Proof.
   destruct (Nat.eqb_spec (g_pre g) 0) as [E|E]; destruct (u_blk u); cbn [c_blk andb Nat.ltb Nat.leb Nat.add]; try reflexivity.
   - rewrite E in *. cbn [Nat.add] in *.
     replace (0 <? 1 + u_nls u) with true by (symmetry; apply Nat.ltb_lt; lia). lia.
+Qed.
+
+(* ================================================================ grouping *)
+(* the groups both algorithms form, on the comments themselves: a new group starts at a block comment,
+   after a block comment, and after a blank line *)
+Fixpoint rgroups (grp : list cunit) (lst : cunit) (us : list cunit) : list (list cunit) :=
+  match us with
+  | [] => [grp]
+  | u :: r => if u_blk u || u_blk lst || Nat.leb 2 (u_nls lst)
+              then grp :: rgroups [u] u r
+              else rgroups (grp ++ [u]) u r
+  end.
+
+Lemma rgroups_nonnil grp lst us : rgroups grp lst us <> [].
+Proof.
+  revert grp lst. induction us as [|u r IH]; intros grp lst; cbn [rgroups]; [discriminate|].
+  destruct (u_blk u || u_blk lst || (2 <=? u_nls lst)); [discriminate|apply IH].
+Qed.
+
+Lemma last_e_app grp c : last_e (grp ++ [c]) = c_e c.
+Proof. unfold last_e. rewrite rev_app_distr. reflexivity. Qed.
+
+Lemma first_s_app grp c : grp <> [] -> first_s (grp ++ [c]) = first_s grp.
+Proof. destruct grp; [congruence|reflexivity]. Qed.
+
+Lemma last_cons {A} (u : A) r d : last (u :: r) d = last r u.
+Proof.
+  revert u d. induction r as [|x r IH]; intros u d; [reflexivity|].
+  change (last (u :: x :: r) d) with (last (x :: r) d). rewrite (IH x d). symmetry. apply (IH x u).
+Qed.
+
+Lemma last_cons_nonnil {A} (x : A) G d : G <> [] -> last (x :: G) d = last G d.
+Proof. destruct G; [congruence|reflexivity]. Qed.
+
+Lemma group_loop_spec us : forall grp lc idx,
+  grp <> [] -> last_e grp = c_e lc -> c_blk lc = u_blk (c_u lc) ->
+  let gs := group_loop (negb (c_blk lc)) (c_e lc) grp (layout (c_e lc + u_nls (c_u lc)) idx us) in
+  map (map c_u) gs = rgroups (map c_u grp) (c_u lc) us /\
+  concat gs = grp ++ layout (c_e lc + u_nls (c_u lc)) idx us /\
+  Forall (fun g => g <> []) gs /\
+  first_s (hd [] gs) = first_s grp /\
+  last_e (last gs []) + u_nls (last us (c_u lc)) = end_line (c_e lc + u_nls (c_u lc)) us.
+Proof.
+  induction us as [|u r IH]; intros grp lc idx Hne Hle Hblk; cbn zeta.
+  - cbn [layout group_loop map rgroups concat hd last end_line]. rewrite !app_nil_r.
+    repeat split; try reflexivity.
+    + constructor; [exact Hne|constructor].
+    + rewrite Hle. reflexivity.
+  - cbn [layout group_loop rgroups end_line]. rewrite last_cons.
+    set (c := mklcm (u_blk u) (c_e lc + u_nls (c_u lc)) (c_e lc + u_nls (c_u lc) + u_k u) idx u).
+    assert (Hcond : (negb (negb (c_blk c)) || negb (Bool.eqb (negb (c_blk lc)) (negb (c_blk c))) ||
+                     (c_e lc + 1 <? c_s c))
+                    = (u_blk u || u_blk (c_u lc) || (2 <=? u_nls (c_u lc)))).
+    { unfold c. cbn [c_blk c_s]. rewrite Hblk. destruct (u_blk u), (u_blk (c_u lc)); cbn [negb orb Bool.eqb]; try reflexivity.
+      all: destruct (Nat.ltb_spec (c_e lc + 1) (c_e lc + u_nls (c_u lc))), (Nat.leb_spec 2 (u_nls (c_u lc))); try reflexivity; lia. }
+    rewrite Hcond.
+    assert (Hc : c_blk c = u_blk (c_u c)) by reflexivity.
+    change (c_e lc + u_nls (c_u lc) + u_k u + u_nls u) with (c_e c + u_nls (c_u c)).
+    destruct (u_blk u || u_blk (c_u lc) || (2 <=? u_nls (c_u lc))).
+    + specialize (IH [c] c (S idx)). cbn zeta in IH.
+      destruct IH as (I1 & I2 & I3 & I4 & I5); [discriminate|reflexivity|exact Hc|].
+      cbn [map concat hd].
+      repeat split.
+      * f_equal. exact I1.
+      * rewrite I2. reflexivity.
+      * constructor; [exact Hne|exact I3].
+      * pose proof (rgroups_nonnil (map c_u [c]) (c_u c) r) as Hn. rewrite <- I1 in Hn.
+        rewrite last_cons_nonnil; [exact I5|]. intros E. rewrite E in Hn. now apply Hn.
+    + specialize (IH (grp ++ [c]) c (S idx)). cbn zeta in IH.
+      destruct IH as (I1 & I2 & I3 & I4 & I5);
+        [destruct grp; discriminate|apply last_e_app|exact Hc|].
+      repeat split.
+      * rewrite I1. rewrite map_app. reflexivity.
+      * rewrite I2. rewrite <- app_assoc. reflexivity.
+      * exact I3.
+      * rewrite I4. apply first_s_app. exact Hne.
+      * exact I5.
+Qed.
+
+(* ================================================================ the reference description *)
+Definition roles := (list cunit * list (list cunit) * list cunit)%type.
+
+Definition go_uroles (cf : cfg) (extra : bool) (g : gap) : roles :=
+  let '(t, d, l) := go_roles cf extra g in (map c_u t, map (map c_u) d, map c_u l).
+
+Definition pc_uroles (g : gap) : roles :=
+  let c := run_gap g in (trailing c, detached c, if has_comment c then buf c else []).
+
+Definition obs_roles (next : nextk) (r : roles) : roles :=
+  if is_scope_end next then (fst (fst r), [], []) else r.
+
+Definition split_last (gs : list (list cunit)) (flushed : bool) : list (list cunit) * list cunit :=
+  if flushed then (gs, []) else (removelast gs, last gs []).
+
+Definition ref_roles (g : gap) : roles :=
+  match g_units g with
+  | [] => ([], [], [])
+  | u1 :: r =>
+    let lu := last r u1 in
+    let flushed := Nat.leb 2 (u_nls lu) || is_scope_end (g_next g) in
+    if g_prev g && Nat.eqb (g_pre g) 0 then
+      match r with
+      | [] => if negb (is_eof (g_next g)) && Nat.eqb (u_nls u1) 0 then ([], [[u1]], []) else ([u1], [], [])
+      | u2 :: r' => let '(d, l) := split_last (rgroups [u2] u2 r') flushed in ([u1], d, l)
+      end
+    else
+      let can := g_prev g && Nat.leb (g_pre g) 1 in
+      match rgroups [u1] u1 r with
+      | [] => ([], [], [])
+      | g1 :: gs' =>
+        match gs' with
+        | [] => if flushed then (if can then (g1, [], []) else ([], [g1], [])) else ([], [], g1)
+        | _ => let '(d, l) := split_last gs' flushed in if can then (g1, d, l) else ([], g1 :: d, l)
+        end
+      end
+  end.
+
+Lemma map_last {A B} (f : A -> B) l d : map f (cons d l) <> [] -> last (map f l) (f d) = f (last l d).
+Proof. intros _. induction l as [|a l IH]; [reflexivity|]. cbn [map]. destruct l; [reflexivity|]. exact IH. Qed.
+
+Lemma map_last_nil {A B} (f : list A -> list B) (l : list (list A)) : f [] = [] -> last (map f l) [] = f (last l []).
+Proof. intros H. induction l as [|a l IH]; [cbn; now rewrite H|]. cbn [map]. destruct l; [reflexivity|]. exact IH. Qed.
+
+Lemma map_removelast {A B} (f : A -> B) l : map f (removelast l) = removelast (map f l).
+Proof. induction l as [|a l IH]; [reflexivity|]. cbn [removelast map]. destruct l; [reflexivity|]. cbn [map] in *. now rewrite IH. Qed.
+
+(* arithmetic of the decisions in terms of n = the newlines after the last comment *)
+Lemma dec_blank e n E : e + n = E -> Nat.ltb (e + 1) E = Nat.leb 2 n.
+Proof. intros <-. destruct (Nat.ltb_spec (e + 1) (e + n)), (Nat.leb_spec 2 n); try reflexivity; lia. Qed.
+Lemma dec_same e n E : e + n = E -> Nat.eqb e E = Nat.eqb n 0.
+Proof. intros <-. destruct (Nat.eqb_spec e (e + n)), (Nat.eqb_spec n 0); try reflexivity; lia. Qed.
+Lemma dec_near e n E : e + n = E -> Nat.leb E (e + 1) = Nat.leb n 1.
+Proof. intros <-. destruct (Nat.leb_spec (e + n) (e + 1)), (Nat.leb_spec n 1); try reflexivity; lia. Qed.
+
+Lemma maybe_attach_spec prev E ht gs n :
+  gs <> [] -> last_e (last gs []) + n = E ->
+  maybe_attach prev E ht gs =
+  if (match gs with [_] => true | _ => false end) && negb ht && prev && Nat.eqb (first_s (hd [] gs)) 0 && Nat.eqb n 0
+  then (gs, [])
+  else if Nat.leb n 1 then (removelast gs, last gs []) else (gs, []).
+Proof.
+  intros Hne H. unfold maybe_attach. destruct gs as [|g0 rest]; [congruence|].
+  rewrite (dec_near _ _ _ H).
+  destruct rest as [|g1 rest'].
+  - cbn [last hd] in *. rewrite (dec_same _ _ _ H). cbn [andb].
+    destruct (negb ht && prev && (first_s g0 =? 0) && (n =? 0)); reflexivity.
+  - cbn [andb]. reflexivity.
+Qed.
+
+Lemma maybe_donate_spec cf extra E next g0 rest n :
+  (rest = [] -> last_e g0 + n = E) ->
+  maybe_donate cf extra E next (g0 :: rest) =
+  if Nat.leb 2 (first_s g0) then ([], g0 :: rest)
+  else match rest with
+       | _ :: _ => (g0, rest)
+       | [] => if Nat.leb 2 n then (g0, [])
+               else if is_closer_or_eof cf extra next
+                    then (if negb extra && negb (is_eof next) && Nat.eqb (first_s g0) 0 && Nat.eqb n 0
+                          then ([], [g0]) else (g0, []))
+                    else ([], [g0])
+       end.
+Proof.
+  intros H. unfold maybe_donate.
+  replace (1 <? first_s g0) with (2 <=? first_s g0)
+    by (destruct (Nat.ltb_spec 1 (first_s g0)), (Nat.leb_spec 2 (first_s g0)); try reflexivity; lia).
+  destruct (2 <=? first_s g0); [reflexivity|].
+  destruct rest; [|reflexivity]. specialize (H eq_refl).
+  rewrite (dec_blank _ _ _ H), (dec_same _ _ _ H). reflexivity.
+Qed.
+
+(* ================================================================ the Go code against the reference description *)
+Definition phase2 (cf : cfg) (extra prev : bool) (next : nextk) (nstart : nat) (tl : list lcm * list lcm) :=
+  let '(trail_lex, lead_lex) := tl in
+  let detached := group_comments lead_lex in
+  let '(trail, detached1) :=
+    if prev then
+      match trail_lex with
+      | [] => maybe_donate cf extra nstart next detached
+      | _ => (trail_lex, detached)
+      end
+    else ([], detached) in
+  let '(detached2, lead) :=
+    maybe_attach prev nstart (match trail with [] => false | _ => true end) detached1 in
+  (trail, detached2, lead).
+
+Lemma go_roles_phase2 cf extra g :
+  go_roles cf extra g = phase2 cf extra (g_prev g) (g_next g) (l_cur (lex_gap g))
+                               (set_prev (g_prev g) (g_next g) (lex_gap g)).
+Proof. reflexivity. Qed.
+
+Definition uroles_of (x : list lcm * list (list lcm) * list lcm) : roles :=
+  let '(t, d, l) := x in (map c_u t, map (map c_u) d, map c_u l).
+
+(* phase 2 when the lexer gave every comment to the next token *)
+Lemma phase2_all cf prev p u1 r next :
+  (next = NSep -> fix_sep cf = true) ->
+  (prev && Nat.eqb p 0 = false) ->
+  obs_roles next (uroles_of (phase2 cf false prev next (end_line p (u1 :: r)) ([], layout p 0 (u1 :: r))))
+  = obs_roles next (ref_roles (mkgap prev p (u1 :: r) next)).
+Proof.
+  intros Hsep Hp0. unfold phase2, ref_roles. cbn [g_units g_prev g_pre g_next]. rewrite Hp0.
+  cbn [layout group_comments c_blk c_e].
+  set (c1 := mklcm (u_blk u1) p (p + u_k u1) 0 u1).
+  destruct (group_loop_spec r [c1] c1 1) as (G1 & G2 & G3 & G4 & G5); [discriminate|reflexivity|reflexivity|].
+  cbn zeta in *. change (c_e c1 + u_nls (c_u c1)) with (p + u_k u1 + u_nls u1) in *.
+  change (c_blk c1) with (u_blk u1) in *. change (c_e c1) with (p + u_k u1) in *.
+  set (gs := group_loop (negb (u_blk u1)) (p + u_k u1) [c1] (layout (p + u_k u1 + u_nls u1) 1 r)) in *.
+  cbn [map] in G1. change (c_u c1) with u1 in *. cbn [end_line].
+  set (E := end_line (p + u_k u1 + u_nls u1) r) in *.
+  set (n := u_nls (last r u1)) in *.
+  rewrite <- G1.
+  assert (Hgs : gs <> []) by (intros E0; pose proof (rgroups_nonnil [u1] u1 r) as Hn; rewrite <- G1, E0 in Hn; now apply Hn).
+  cbn [first_s] in G4. change (c_s c1) with p in G4.
+  assert (Hn1 : (n <=? 1) = negb (2 <=? n))
+    by (destruct (Nat.leb_spec n 1), (Nat.leb_spec 2 n); cbn; try reflexivity; lia).
+  assert (Hn0 : (n =? 0) = true -> (2 <=? n) = false)
+    by (intros H0; apply Nat.eqb_eq in H0; apply Nat.leb_gt; lia).
+  destruct gs as [|g1 rest]; [congruence|]. cbn [hd] in G4. cbn [map].
+  destruct prev.
+  - cbn [andb] in Hp0. apply Nat.eqb_neq in Hp0.
+    rewrite (maybe_donate_spec cf false E next g1 rest n) by (intros ->; exact G5).
+    rewrite G4. cbn [andb negb].
+    destruct (Nat.leb_spec 2 p) as [Hp|Hp].
+    + (* a blank line before the first comment: nothing for the previous token *)
+      replace (p <=? 1) with false by (symmetry; apply Nat.leb_gt; lia).
+      rewrite (maybe_attach_spec true E false (g1 :: rest) n) by (congruence || exact G5).
+      cbn [hd]. rewrite G4. replace (p =? 0) with false by (symmetry; apply Nat.eqb_neq; lia).
+      rewrite !andb_false_r. cbn [andb]. rewrite Hn1.
+      destruct rest as [|g2 rest']; cbn [map].
+      * unfold obs_roles, uroles_of. destruct (2 <=? n), next; cbn; reflexivity.
+      * unfold obs_roles, uroles_of, split_last.
+        destruct (2 <=? n); cbn [negb orb].
+        { destruct next; cbn; reflexivity. }
+        change (removelast (g1 :: g2 :: rest')) with (g1 :: removelast (g2 :: rest')).
+        change (last (g1 :: g2 :: rest') []) with (last (g2 :: rest') []).
+        change (map c_u g2 :: map (map c_u) rest') with (map (map c_u) (g2 :: rest')).
+        rewrite <- (map_removelast (map c_u) (g2 :: rest')).
+        rewrite <- (map_last_nil (map c_u) (g2 :: rest')) by reflexivity.
+        destruct next; cbn [is_scope_end fst map]; reflexivity.
+    + assert (Hp1 : p = 1) by lia. rewrite Hp1.
+      change (1 <=? 1) with true. change (1 =? 0) with false. cbn [andb].
+      destruct rest as [|g2 rest']; cbn [map].
+      * cbn [last] in G5.
+        destruct (Nat.leb_spec 2 n) as [Hn|Hn]; cbn [orb].
+        { unfold obs_roles, uroles_of. cbn [maybe_attach]. destruct next; reflexivity. }
+        destruct next; cbn [is_closer_or_eof is_scope_end is_eof negb andb orb].
+        { unfold obs_roles, uroles_of. cbn [maybe_attach is_scope_end]. reflexivity. }
+        { unfold obs_roles, uroles_of. cbn [maybe_attach is_scope_end]. reflexivity. }
+        { rewrite (Hsep eq_refl). cbn [negb orb].
+          rewrite (maybe_attach_spec true E false [g1] n) by (congruence || exact G5).
+          cbn [hd]. rewrite G4, Hp1. change (1 =? 0) with false. cbn [andb].
+          replace (n <=? 1) with true by (symmetry; apply Nat.leb_le; lia).
+          unfold obs_roles, uroles_of. cbn. reflexivity. }
+        { rewrite (maybe_attach_spec true E false [g1] n) by (congruence || exact G5).
+          cbn [hd]. rewrite G4, Hp1. change (1 =? 0) with false. cbn [andb].
+          replace (n <=? 1) with true by (symmetry; apply Nat.leb_le; lia).
+          unfold obs_roles, uroles_of. cbn. reflexivity. }
+      * change (last (g1 :: g2 :: rest') []) with (last (g2 :: rest') []) in G5.
+        assert (Hg1 : g1 <> []) by (inversion G3; assumption).
+        replace (match g1 with [] => false | _ :: _ => true end) with true by (destruct g1; [congruence|reflexivity]).
+        rewrite (maybe_attach_spec true E true (g2 :: rest') n) by (congruence || exact G5).
+        cbn [negb andb]. rewrite !andb_false_r. cbn [andb]. rewrite Hn1.
+        unfold obs_roles, uroles_of, split_last.
+        destruct (2 <=? n); cbn [negb orb].
+        { destruct next; cbn; reflexivity. }
+        change (map c_u g2 :: map (map c_u) rest') with (map (map c_u) (g2 :: rest')).
+        rewrite <- (map_removelast (map c_u) (g2 :: rest')).
+        rewrite <- (map_last_nil (map c_u) (g2 :: rest')) by reflexivity.
+        destruct next; cbn [is_scope_end fst map]; reflexivity.
+  - cbn [andb].
+    rewrite (maybe_attach_spec false E false (g1 :: rest) n) by (congruence || exact G5).
+    rewrite !andb_false_r. cbn [andb]. rewrite Hn1.
+    destruct rest as [|g2 rest']; cbn [map].
+    + unfold obs_roles, uroles_of. destruct (2 <=? n), next; cbn; reflexivity.
+    + unfold obs_roles, uroles_of, split_last.
+      destruct (2 <=? n); cbn [negb orb].
+      * destruct next; cbn; reflexivity.
+      * change (removelast (g1 :: g2 :: rest')) with (g1 :: removelast (g2 :: rest')).
+        change (last (g1 :: g2 :: rest') []) with (last (g2 :: rest') []).
+        change (map c_u g2 :: map (map c_u) rest') with (map (map c_u) (g2 :: rest')).
+        rewrite <- (map_removelast (map c_u) (g2 :: rest')).
+        rewrite <- (map_last_nil (map c_u) (g2 :: rest')) by reflexivity.
+        destruct next; cbn [is_scope_end fst map]; reflexivity.
+Qed.
+
+Lemma set_prev_none prev p u1 r next :
+  prev && Nat.eqb p 0 = false ->
+  set_prev prev next (mklexst (end_line p (u1 :: r)) (md_final p (u1 :: r)) (layout p 0 (u1 :: r)))
+  = ([], layout p 0 (u1 :: r)).
+Proof.
+  intros H. unfold set_prev. cbn [l_cms l_cur l_md layout].
+  destruct prev; cbn [negb]; [|reflexivity].
+  cbn [andb] in H. unfold md_final. rewrite H. rewrite andb_false_r. reflexivity.
+Qed.
+
+(* the tail shared by all cases in which the first comment goes to the previous token *)
+Lemma attach_tail (c1 : lcm) u2 r' next E idx line :
+  let c2 := mklcm (u_blk u2) line (line + u_k u2) idx u2 in
+  let gs2 := group_loop (negb (u_blk u2)) (line + u_k u2) [c2] (layout (line + u_k u2 + u_nls u2) (S idx) r') in
+  E = end_line (line + u_k u2 + u_nls u2) r' ->
+  obs_roles next (uroles_of (let '(d, l) := maybe_attach true E true gs2 in ([c1], d, l)))
+  = obs_roles next (let '(d, l) := split_last (rgroups [u2] u2 r')
+                                               (Nat.leb 2 (u_nls (last r' u2)) || is_scope_end next) in
+                    ([c_u c1], d, l)).
+Proof.
+  intros c2 gs2 HE.
+  destruct (group_loop_spec r' [c2] c2 (S idx)) as (G1 & G2 & G3 & G4 & G5); [discriminate|reflexivity|reflexivity|].
+  cbn zeta in *. change (c_e c2 + u_nls (c_u c2)) with (line + u_k u2 + u_nls u2) in *.
+  change (c_blk c2) with (u_blk u2) in *. change (c_e c2) with (line + u_k u2) in *.
+  fold gs2 in G1, G2, G3, G4, G5. cbn [map] in G1. change (c_u c2) with u2 in *.
+  rewrite <- HE in G5. set (n := u_nls (last r' u2)) in *.
+  assert (Hgs : gs2 <> []) by (intros E0; pose proof (rgroups_nonnil [u2] u2 r') as Hn; rewrite <- G1, E0 in Hn; now apply Hn).
+  assert (Hn1 : (n <=? 1) = negb (2 <=? n))
+    by (destruct (Nat.leb_spec n 1), (Nat.leb_spec 2 n); cbn; try reflexivity; lia).
+  rewrite (maybe_attach_spec true E true gs2 n) by assumption.
+  cbn [negb andb]. rewrite !andb_false_r. cbn [andb]. rewrite Hn1. rewrite <- G1.
+  unfold obs_roles, uroles_of, split_last.
+  destruct (2 <=? n); cbn [negb orb].
+  - destruct next; cbn; reflexivity.
+  - rewrite <- (map_removelast (map c_u) gs2).
+    rewrite <- (map_last_nil (map c_u) gs2) by reflexivity.
+    destruct next; cbn [is_scope_end fst map]; reflexivity.
+Qed.
+
+Ltac nb := repeat match goal with
+  | |- context [Nat.ltb ?a ?b] => destruct (Nat.ltb_spec a b)
+  | |- context [Nat.leb ?a ?b] => destruct (Nat.leb_spec a b)
+  | |- context [Nat.eqb ?a ?b] => destruct (Nat.eqb_spec a b)
+  end.
+
+Lemma go_p0_single cf u1 next :
+  wf_units [u1] next -> (next = NSep -> fix_sep cf = true) ->
+  obs_roles next (uroles_of (phase2 cf false true next (end_line 0 [u1])
+       (set_prev true next (mklexst (end_line 0 [u1]) (md_final 0 [u1]) (layout 0 0 [u1])))))
+  = obs_roles next (ref_roles (mkgap true 0 [u1] next)).
+Proof.
+  intros [Hwf _] Hsep.
+  unfold ref_roles. cbn [g_units g_prev g_pre g_next last andb Nat.eqb].
+  cbn [end_line layout md_final Nat.eqb Nat.add].
+  set (c1 := mklcm (u_blk u1) 0 (u_k u1) 0 u1).
+  unfold set_prev. cbn [l_cms l_cur l_md negb length c_blk c1].
+  assert (Hk : u_blk u1 = false -> u_k u1 = 0) by (intros B; unfold u_k; now rewrite B).
+  assert (G5 : last_e [c1] + u_nls u1 = u_k u1 + u_nls u1) by reflexivity.
+  assert (M : forall ht, maybe_attach true (u_k u1 + u_nls u1) ht [[c1]] =
+              if negb ht && Nat.eqb (u_nls u1) 0 then ([[c1]], [])
+              else if Nat.leb (u_nls u1) 1 then ([], [c1]) else ([[c1]], [])).
+  { intros ht. rewrite (maybe_attach_spec true _ ht [[c1]] (u_nls u1)) by (congruence || exact G5).
+    cbn [hd first_s c_s c1 Nat.eqb andb removelast last]. rewrite andb_true_r. rewrite andb_true_r. reflexivity. }
+  assert (D : maybe_donate cf false (u_k u1 + u_nls u1) next [[c1]] =
+              if Nat.leb 2 (u_nls u1) then ([c1], [])
+              else if is_closer_or_eof cf false next
+                   then (if negb (is_eof next) && Nat.eqb (u_nls u1) 0 then ([], [[c1]]) else ([c1], []))
+                   else ([], [[c1]])).
+  { rewrite (maybe_donate_spec cf false _ next [c1] [] (u_nls u1)) by (intros _; exact G5).
+    cbn [first_s c_s c1 negb andb]. change (2 <=? 0) with false. change (0 =? 0) with true. rewrite andb_true_r. reflexivity. }
+  destruct (u_blk u1) eqn:B.
+  - (* a block comment *)
+    cbn [negb orb]. change (1 <? 1) with false. cbn [orb].
+    destruct (u_nls u1) as [|n1] eqn:N.
+    + (* the next token is on the line where it ends *)
+      rewrite !Nat.add_0_r, Nat.sub_diag. rewrite ?Nat.add_0_r.
+      match goal with |- context [if ?b then (if 1 <? 1 then ?x else ?y) else ?y] =>
+        replace (if b then (if 1 <? 1 then x else y) else y) with y by (destruct b; reflexivity) end.
+      unfold phase2. cbn [group_comments group_loop c_blk c_e c1].
+      rewrite Nat.add_0_r in D, M. rewrite D. change (2 <=? 0) with false. change (0 =? 0) with true. rewrite andb_true_r.
+      destruct next; cbn [is_closer_or_eof is_eof negb andb orb is_scope_end].
+      * rewrite ?M. cbn. reflexivity.
+      * rewrite ?M. cbn. reflexivity.
+      * rewrite (Hsep eq_refl). cbn [negb orb]. rewrite ?M. cbn. reflexivity.
+      * rewrite ?M. cbn. reflexivity.
+    + (* it is followed by a newline: the lexer gives it to the previous token *)
+      replace (u_k u1 + S n1 - u_k u1) with (S n1) by lia.
+      replace (u_k u1 + S n1 =? 0) with false by (symmetry; apply Nat.eqb_neq; lia). cbn [andb].
+      replace (0 <? u_k u1 + S n1) with true by (symmetry; apply Nat.ltb_lt; lia).
+      change (0 <? S (S n1)) with true. change (1 <? S (S n1)) with true. cbn [andb].
+      unfold phase2. cbn [group_comments maybe_attach].
+      unfold obs_roles, uroles_of. rewrite andb_false_r. destruct next; cbn; reflexivity.
+  - (* a line comment *)
+    cbn [negb orb]. rewrite (Hk eq_refl). cbn [Nat.add]. rewrite Hk in D, M by reflexivity. cbn [Nat.add] in D, M.
+    destruct (u_nls u1) as [|n1] eqn:N.
+    + destruct (Hwf eq_refl eq_refl) as [_ ->]. cbn [Nat.eqb andb Nat.ltb Nat.leb].
+      unfold phase2. cbn [group_comments maybe_attach]. reflexivity.
+    + change (S n1 =? 0) with false. cbn [andb]. change (0 <? S n1) with true. cbn [andb Nat.ltb Nat.leb].
+      unfold phase2. cbn [group_comments maybe_attach].
+      unfold obs_roles, uroles_of. rewrite andb_false_r. destruct next; cbn; reflexivity.
+Qed.
+
+Lemma group_loop_nonnil cs : forall single line grp, group_loop single line grp cs <> [].
+Proof.
+  induction cs as [|c r IH]; intros single line grp; cbn [group_loop]; [discriminate|].
+  destruct (negb (negb (c_blk c)) || negb (eqb single (negb (c_blk c))) || (line + 1 <? c_s c)); [discriminate|apply IH].
+Qed.
+
+Lemma end_line_zero us : forall line, end_line line us = 0 ->
+  line = 0 /\ Forall (fun u => u_k u = 0 /\ u_nls u = 0) us.
+Proof.
+  induction us as [|u r IH]; intros line H; cbn [end_line] in H.
+  - split; [exact H|constructor].
+  - destruct (IH _ H) as [H1 H2]. split; [lia|]. constructor; [lia|exact H2].
+Qed.
+
+Lemma go_p0_multi cf u1 u2 r' next :
+  wf_units (u1 :: u2 :: r') next ->
+  obs_roles next (uroles_of (phase2 cf false true next (end_line 0 (u1 :: u2 :: r'))
+       (set_prev true next (mklexst (end_line 0 (u1 :: u2 :: r')) (md_final 0 (u1 :: u2 :: r'))
+                                    (layout 0 0 (u1 :: u2 :: r'))))))
+  = obs_roles next (ref_roles (mkgap true 0 (u1 :: u2 :: r') next)).
+Proof.
+  intros Hwf.
+  unfold ref_roles. cbn [g_units g_prev g_pre g_next andb Nat.eqb]. rewrite last_cons.
+  set (E := end_line 0 (u1 :: u2 :: r')).
+  assert (HE : E = end_line (0 + u_k u1 + u_nls u1 + u_k u2 + u_nls u2) r') by reflexivity.
+  cbn [layout].
+  set (c1 := mklcm (u_blk u1) 0 (0 + u_k u1) 0 u1).
+  set (c2 := mklcm (u_blk u2) (0 + u_k u1 + u_nls u1) (0 + u_k u1 + u_nls u1 + u_k u2) 1 u2).
+  set (rest := layout (0 + u_k u1 + u_nls u1 + u_k u2 + u_nls u2) 2 r').
+  assert (Hmd : (0 <? md_final 0 (u1 :: u2 :: r')) = true).
+  { unfold md_final. cbn [Nat.eqb]. destruct (u_blk u1); reflexivity. }
+  unfold set_prev. cbn [l_cms l_cur l_md negb length]. rewrite Hmd.
+  change (1 <? S (S (length rest))) with true. rewrite orb_true_r. cbn [orb].
+  rewrite andb_true_r.
+  pose proof (attach_tail c1 u2 r' next E 1 (0 + u_k u1 + u_nls u1) HE) as T.
+  cbn zeta in T. fold c2 in T. fold rest in T. change (c_u c1) with u1 in T.
+  match goal with |- context [if ?b then ([c1], c2 :: rest) else _] => destruct b eqn:Hcur end.
+  - (* the lexer gives the first comment to the previous token *)
+    unfold phase2. cbn [group_comments c_blk c_e c2].
+    exact T.
+  - (* everything is on the line of the previous token and the file goes on *)
+    assert (E0 : E = 0 /\ next <> NEof).
+    { destruct (Nat.eqb_spec E 0) as [Ez|Ez]; cbn [andb] in Hcur.
+      - destruct next; cbn in Hcur; try discriminate; split; (exact Ez || discriminate).
+      - apply Nat.ltb_ge in Hcur. lia. }
+    destruct E0 as [Ez Hne]. unfold E in Ez.
+    destruct (end_line_zero _ _ Ez) as [_ Hz].
+    inversion Hz as [|? ? [Hk1 Hn1] Hz']; subst. inversion Hz' as [|? ? [Hk2 Hn2] _]; subst.
+    destruct Hwf as [W1 [W2 _]].
+    assert (B1 : u_blk u1 = true).
+    { destruct (u_blk u1); [reflexivity|]. destruct (W1 eq_refl Hn1) as [Hx _]. discriminate. }
+    assert (B2 : u_blk u2 = true).
+    { destruct (u_blk u2); [reflexivity|]. destruct (W2 eq_refl Hn2) as [_ Hx]. congruence. }
+    unfold phase2. cbn [group_comments group_loop c_blk c_e c_s c1 c2].
+    rewrite B2. cbn [negb orb].
+    rewrite (maybe_donate_spec cf false E next [c1] _ 0)
+      by (intros Hnil; exfalso; revert Hnil; apply group_loop_nonnil).
+    cbn [first_s c_s c1]. change (2 <=? 0) with false. cbn iota.
+    pose proof (group_loop_nonnil rest (negb true) (0 + u_k u1 + u_nls u1 + u_k u2) [c2]) as Hnn.
+    rewrite B2 in T. change (negb true) with false in *.
+    destruct (group_loop false (0 + u_k u1 + u_nls u1 + u_k u2) [c2] rest) as [|g gs'] eqn:G; [congruence|].
+    exact T.
+Qed.
+
+Theorem go_ref cf g :
+  wf_gap g -> (g_next g = NSep -> fix_sep cf = true) ->
+  obs_roles (g_next g) (go_uroles cf false g) = obs_roles (g_next g) (ref_roles g).
+Proof.
+  intros Hwf Hsep. change (go_uroles cf false g) with (uroles_of (go_roles cf false g)).
+  rewrite go_roles_phase2, lex_gap_spec. cbn [l_cur].
+  destruct g as [prev p us next]. unfold wf_gap in Hwf. cbn [g_prev g_pre g_units g_next] in *.
+  destruct us as [|u1 r].
+  - unfold set_prev, phase2, ref_roles. cbn. destruct prev; reflexivity.
+  - destruct (prev && (p =? 0)) eqn:Hp.
+    + apply andb_true_iff in Hp. destruct Hp as [-> Hp]. apply Nat.eqb_eq in Hp. subst p.
+      destruct r as [|u2 r'].
+      * apply go_p0_single; assumption.
+      * apply go_p0_multi; assumption.
+    + rewrite set_prev_none by exact Hp. apply phase2_all; assumption.
+Qed.
+
+(* ================================================================ protoc on a gap *)
+(* the collector while the buffer holds the group grp whose last comment is lst; c0 = the collector before *)
+Definition open_c (c0 : coll) (grp : list cunit) (lst : cunit) : coll :=
+  mkcoll grp true (negb (u_blk lst)) (can_attach_to_prev c0) (num_comments c0)
+         (has_trailing_comment c0) (trailing c0) (detached c0).
+
+(* ... after the newlines that follow lst have been read *)
+Definition after_unit (c0 : coll) (grp : list cunit) (lst : cunit) : coll :=
+  if Nat.leb 2 (u_nls lst) then flush (open_c c0 grp lst) else open_c c0 grp lst.
+
+Definition idle (c : coll) : Prop := has_comment c = false /\ buf c = [].
+
+Lemma flush_open_idle c0 grp lst : idle (flush (open_c c0 grp lst)).
+Proof. unfold flush, open_c. cbn. destruct (can_attach_to_prev c0); split; reflexivity. Qed.
+
+Lemma detach_flush_open c0 grp lst : detach_from_prev (flush (open_c c0 grp lst)) = flush (open_c c0 grp lst).
+Proof. unfold flush, open_c, detach_from_prev. cbn. destruct (can_attach_to_prev c0); reflexivity. Qed.
+
+Lemma flush_idle c : idle c -> flush c = c.
+Proof. intros [H _]. unfold flush. now rewrite H. Qed.
+
+Lemma blank_lines_flushed n c0 grp lst L :
+  blank_lines n (mkts (flush (open_c c0 grp lst)) L) = mkts (flush (open_c c0 grp lst)) (L + n).
+Proof.
+  revert L. induction n as [|n IH]; intros L; cbn [blank_lines].
+  - now rewrite Nat.add_0_r.
+  - unfold blank_line. cbn [ts_c ts_line]. rewrite (flush_idle _ (flush_open_idle c0 grp lst)).
+    rewrite detach_flush_open. rewrite IH. f_equal. lia.
+Qed.
+
+Lemma blank_lines_open n c0 grp lst L :
+  blank_lines (S n) (mkts (open_c c0 grp lst) L) = mkts (flush (open_c c0 grp lst)) (L + S n).
+Proof.
+  cbn [blank_lines]. unfold blank_line. cbn [ts_c ts_line]. rewrite detach_flush_open.
+  rewrite blank_lines_flushed. f_equal. lia.
+Qed.
+
+(* the newlines after a comment *)
+Lemma after_newlines c0 grp lst L :
+  (match u_nls lst with
+   | O => mkts (open_c c0 grp lst) L
+   | S m => blank_lines m (mkts (open_c c0 grp lst) (S L))
+   end) = mkts (after_unit c0 grp lst) (L + u_nls lst).
+Proof.
+  unfold after_unit. destruct (u_nls lst) as [|[|m]]; cbn [Nat.leb].
+  - now rewrite Nat.add_0_r.
+  - cbn [blank_lines]. f_equal. lia.
+  - rewrite blank_lines_open. f_equal. lia.
+Qed.
+
+Lemma read_idle c u : idle c -> read_comment c u = open_c c [u] u.
+Proof.
+  intros [H B]. unfold read_comment, open_c. rewrite H. cbn [andb].
+  destruct (u_blk u); rewrite B; reflexivity.
+Qed.
+
+Lemma loop_unit_idle c L u : idle c -> loop_unit (mkts c L) u = mkts (after_unit c [u] u) (L + u_k u + u_nls u).
+Proof.
+  intros H. unfold loop_unit. cbn [ts_c ts_line]. rewrite (read_idle c u H). apply after_newlines.
+Qed.
+
+Definition brk (lst u : cunit) : bool := u_blk u || u_blk lst || Nat.leb 2 (u_nls lst).
+
+Lemma loop_unit_after c0 grp lst L u : idle c0 -> grp <> [] ->
+  loop_unit (mkts (after_unit c0 grp lst) L) u
+  = if brk lst u then mkts (after_unit (flush (open_c c0 grp lst)) [u] u) (L + u_k u + u_nls u)
+    else mkts (after_unit c0 (grp ++ [u]) u) (L + u_k u + u_nls u).
+Proof.
+  intros Hi Hg. unfold brk, after_unit at 1.
+  destruct (Nat.leb 2 (u_nls lst)) eqn:N.
+  - rewrite orb_true_r. apply loop_unit_idle. apply flush_open_idle.
+  - rewrite orb_false_r. unfold loop_unit. cbn [ts_c ts_line].
+    assert (R : read_comment (open_c c0 grp lst) u
+                = if u_blk u || u_blk lst then open_c (flush (open_c c0 grp lst)) [u] u else open_c c0 (grp ++ [u]) u).
+    { unfold read_comment. cbn [open_c has_comment is_line_comment andb].
+      destruct (u_blk u) eqn:B; cbn [orb].
+      - rewrite <- (read_idle _ u (flush_open_idle c0 grp lst)). unfold read_comment. rewrite B.
+        destruct (flush_open_idle c0 grp lst) as [H _]. rewrite H. reflexivity.
+      - rewrite negb_involutive. destruct (u_blk lst) eqn:B2.
+        + rewrite <- (read_idle _ u (flush_open_idle c0 grp lst)). unfold read_comment. rewrite B.
+          destruct (flush_open_idle c0 grp lst) as [H _]. rewrite H. reflexivity.
+        + unfold open_c. cbn. rewrite B. reflexivity. }
+    rewrite R. destruct (u_blk u || u_blk lst); apply after_newlines.
+Qed.
+
+(* the state after a whole run of comments *)
+Fixpoint walk (c0 : coll) (grp : list cunit) (lst : cunit) (us : list cunit) : coll * list cunit * cunit :=
+  match us with
+  | [] => (c0, grp, lst)
+  | u :: r => if brk lst u then walk (flush (open_c c0 grp lst)) [u] u r else walk c0 (grp ++ [u]) u r
+  end.
+
+Lemma loop_walk us : forall c0 grp lst L, idle c0 -> grp <> [] ->
+  fold_left loop_unit us (mkts (after_unit c0 grp lst) L)
+  = let '(c0', grp', lst') := walk c0 grp lst us in mkts (after_unit c0' grp' lst') (end_line L us).
+Proof.
+  induction us as [|u r IH]; intros c0 grp lst L Hi Hg; cbn [fold_left walk end_line]; [reflexivity|].
+  rewrite loop_unit_after by assumption.
+  destruct (brk lst u).
+  - apply IH; [apply flush_open_idle|discriminate].
+  - apply IH; [exact Hi|destruct grp; discriminate].
+Qed.
+
+Definition core_t := (bool * nat * bool * list cunit * list (list cunit))%type.
+Definition core (c : coll) : core_t :=
+  (can_attach_to_prev c, num_comments c, has_trailing_comment c, trailing c, detached c).
+Definition push_core (x : core_t) (g : list cunit) : core_t :=
+  let '(can, num, ht, tr, det) := x in
+  if can then (false, S num, true, tr ++ g, det) else (false, S num, ht, tr, det ++ [g]).
+
+Lemma core_flush_open c0 grp lst : core (flush (open_c c0 grp lst)) = push_core (core c0) grp.
+Proof. unfold core, push_core, flush, open_c. cbn. destruct (can_attach_to_prev c0); reflexivity. Qed.
+
+Lemma removelast_cons_nonnil {A} (x : A) G : G <> [] -> removelast (x :: G) = x :: removelast G.
+Proof. destruct G; [congruence|reflexivity]. Qed.
+
+Lemma walk_spec us : forall c0 grp lst, idle c0 ->
+  let '(c0', grp', lst') := walk c0 grp lst us in
+  grp' = last (rgroups grp lst us) [] /\ lst' = last us lst /\ idle c0' /\
+  core c0' = fold_left push_core (removelast (rgroups grp lst us)) (core c0).
+Proof.
+  induction us as [|u r IH]; intros c0 grp lst Hi; cbn [walk rgroups].
+  - cbn. exact (conj eq_refl (conj eq_refl (conj Hi eq_refl))).
+  - fold (brk lst u). rewrite last_cons. destruct (brk lst u).
+    + specialize (IH (flush (open_c c0 grp lst)) [u] u (flush_open_idle c0 grp lst)).
+      destruct (walk (flush (open_c c0 grp lst)) [u] u r) as [[c0' grp'] lst'].
+      destruct IH as (I1 & I2 & I3 & I4).
+      pose proof (rgroups_nonnil [u] u r) as Hn.
+      rewrite last_cons_nonnil, removelast_cons_nonnil by exact Hn.
+      cbn [fold_left]. rewrite <- (core_flush_open c0 grp lst). exact (conj I1 (conj I2 (conj I3 I4))).
+    + specialize (IH c0 (grp ++ [u]) u Hi).
+      destruct (walk c0 (grp ++ [u]) u r) as [[c0' grp'] lst'].
+      exact IH.
+Qed.
+
+Lemma push_all_flushed gs : forall num ht tr det,
+  fold_left push_core gs (false, num, ht, tr, det) = (false, num + length gs, ht, tr, det ++ gs).
+Proof.
+  induction gs as [|g gs IH]; intros num ht tr det; cbn [fold_left length push_core].
+  - rewrite Nat.add_0_r, app_nil_r. reflexivity.
+  - rewrite IH. rewrite <- app_assoc. cbn [app]. replace (S num + length gs) with (num + S (length gs)) by lia. reflexivity.
+Qed.
+
+Lemma push_all gs can num ht tr det :
+  fold_left push_core gs (can, num, ht, tr, det)
+  = match gs with
+    | [] => (can, num, ht, tr, det)
+    | g1 :: rest => if can then (false, num + length gs, true, tr ++ g1, det ++ rest)
+                    else (false, num + length gs, ht, tr, det ++ g1 :: rest)
+    end.
+Proof.
+  destruct gs as [|g1 rest]; [reflexivity|]. cbn [fold_left push_core length].
+  destruct can; rewrite push_all_flushed.
+  - replace (S num + length rest) with (num + S (length rest)) by lia. reflexivity.
+  - rewrite <- app_assoc. cbn [app]. replace (S num + length rest) with (num + S (length rest)) by lia. reflexivity.
+Qed.
+
+(* the collector at the end of the loop, after the flush at the end of a scope *)
+Definition final_c (c0 : coll) (grp : list cunit) (lst : cunit) (next : nextk) : coll :=
+  if is_scope_end next then flush (after_unit c0 grp lst) else after_unit c0 grp lst.
+
+Lemma final_c_spec c0 grp lst next :
+  final_c c0 grp lst next
+  = if Nat.leb 2 (u_nls lst) || is_scope_end next then flush (open_c c0 grp lst) else open_c c0 grp lst.
+Proof.
+  unfold final_c, after_unit. destruct (Nat.leb 2 (u_nls lst)), (is_scope_end next); cbn [orb]; try reflexivity.
+  apply flush_idle. apply flush_open_idle.
+Qed.
+
+Definition roles_of (c : coll) : roles := (trailing c, detached c, if has_comment c then buf c else []).
+
+(* the loop over u1 :: r from an idle collector *)
+Lemma loop_from_idle c L u1 r next : idle c ->
+  let s := fold_left loop_unit (u1 :: r) (mkts c L) in
+  let gs := rgroups [u1] u1 r in
+  let lu := last r u1 in
+  let flushed := Nat.leb 2 (u_nls lu) || is_scope_end next in
+  ts_line s = end_line L (u1 :: r) /\
+  exists cF, (if is_scope_end next then flush (ts_c s) else ts_c s) = cF /\
+    (if flushed
+     then has_comment cF = false /\ core cF = fold_left push_core gs (core c)
+     else has_comment cF = true /\ buf cF = last gs [] /\ core cF = fold_left push_core (removelast gs) (core c)).
+Proof.
+  intros Hi. cbn zeta. cbn [fold_left]. rewrite (loop_unit_idle c L u1 Hi).
+  rewrite (loop_walk r c [u1] u1 _ Hi) by discriminate.
+  pose proof (walk_spec r c [u1] u1 Hi) as W.
+  destruct (walk c [u1] u1 r) as [[c0' grp'] lst'].
+  destruct W as (W1 & W2 & W3 & W4).
+  cbn [ts_c ts_line end_line]. split; [reflexivity|].
+  eexists. split; [reflexivity|].
+  change (if is_scope_end next then flush (after_unit c0' grp' lst') else after_unit c0' grp' lst')
+    with (final_c c0' grp' lst' next).
+  rewrite final_c_spec. rewrite W2.
+  pose proof (rgroups_nonnil [u1] u1 r) as Hn.
+  destruct (Nat.leb 2 (u_nls (last r u1)) || is_scope_end next).
+  - split; [apply flush_open_idle|].
+    rewrite core_flush_open, W4, W1.
+    transitivity (fold_left push_core (removelast (rgroups [u1] u1 r) ++ [last (rgroups [u1] u1 r) []]) (core c)).
+    + rewrite fold_left_app. reflexivity.
+    + rewrite <- (app_removelast_last [] Hn). reflexivity.
+  - repeat split; [exact W1|exact W4].
+Qed.
+
+Definition cd : coll := detach_from_prev coll_init.
+
+Lemma blank_lines_cd n : forall L, blank_lines n (mkts cd L) = mkts cd (L + n).
+Proof.
+  induction n as [|n IH]; intros L; cbn [blank_lines].
+  - now rewrite Nat.add_0_r.
+  - unfold blank_line. cbn [ts_c ts_line]. change (detach_from_prev (flush cd)) with cd. rewrite IH. f_equal. lia.
+Qed.
+
+Lemma blank_lines_init n L :
+  blank_lines n (mkts coll_init L) = mkts (if Nat.eqb n 0 then coll_init else cd) (L + n).
+Proof.
+  destruct n as [|n]; cbn [blank_lines Nat.eqb].
+  - now rewrite Nat.add_0_r.
+  - unfold blank_line. cbn [ts_c ts_line]. change (detach_from_prev (flush coll_init)) with cd.
+    rewrite blank_lines_cd. f_equal. lia.
+Qed.
+
+Lemma idle_cd : idle cd. Proof. split; reflexivity. Qed.
+Lemma idle_init : idle coll_init. Proof. split; reflexivity. Qed.
+
+Lemma roles_of_flushed c tr det can num ht :
+  has_comment c = false -> core c = (can, num, ht, tr, det) -> roles_of c = (tr, det, []).
+Proof. intros H C. unfold roles_of, core in *. rewrite H. injection C as _ _ _ -> ->. reflexivity. Qed.
+
+Lemma roles_of_open c tr det can num ht b :
+  has_comment c = true -> buf c = b -> core c = (can, num, ht, tr, det) -> roles_of c = (tr, det, b).
+Proof. intros H B C. unfold roles_of, core in *. rewrite H, B. injection C as _ _ _ -> ->. reflexivity. Qed.
+
+(* from an idle collector that has seen nothing, without MaybeDetachComment *)
+Lemma run_from_start can0 c L u1 r next :
+  idle c -> core c = (can0, 0, false, [], []) ->
+  roles_of (let s := fold_left loop_unit (u1 :: r) (mkts c L) in
+            if is_scope_end next then flush (ts_c s) else ts_c s)
+  = let flushed := Nat.leb 2 (u_nls (last r u1)) || is_scope_end next in
+    match rgroups [u1] u1 r with
+    | [] => ([], [], [])
+    | g1 :: gs' =>
+      match gs' with
+      | [] => if flushed then (if can0 then (g1, [], []) else ([], [g1], [])) else ([], [], g1)
+      | _ => let '(d, l) := split_last gs' flushed in if can0 then (g1, d, l) else ([], g1 :: d, l)
+      end
+    end.
+Proof.
+  intros Hi Hc. cbn zeta.
+  destruct (loop_from_idle c L u1 r next Hi) as (_ & cF & -> & H).
+  pose proof (rgroups_nonnil [u1] u1 r) as Hn.
+  destruct (rgroups [u1] u1 r) as [|g1 gs']; [congruence|].
+  rewrite Hc in H.
+  destruct (Nat.leb 2 (u_nls (last r u1)) || is_scope_end next).
+  - destruct H as [Hh Hcore]. rewrite push_all in Hcore. unfold split_last.
+    destruct can0; cbn [app] in Hcore; rewrite (roles_of_flushed _ _ _ _ _ _ Hh Hcore); destruct gs'; reflexivity.
+  - destruct H as (Hh & Hb & Hcore). unfold split_last.
+    destruct gs' as [|g2 rest'].
+    + cbn [removelast fold_left last] in *. rewrite (roles_of_open _ _ _ _ _ _ _ Hh Hb Hcore). reflexivity.
+    + change (removelast (g1 :: g2 :: rest')) with (g1 :: removelast (g2 :: rest')) in Hcore.
+      change (last (g1 :: g2 :: rest') []) with (last (g2 :: rest') []) in Hb.
+      rewrite push_all in Hcore.
+      destruct can0; cbn [app] in Hcore; rewrite (roles_of_open _ _ _ _ _ _ _ Hh Hb Hcore); reflexivity.
+Qed.
+
+Lemma finish_plain pl tce next s :
+  (match pl with Some l => Nat.eqb l (ts_line s) | None => false end) = false ->
+  (match tce with Some l => Nat.eqb l (ts_line s) | None => false end) = false ->
+  finish pl tce next s = if is_scope_end next then flush (ts_c s) else ts_c s.
+Proof. intros H1 H2. unfold finish. rewrite H1, H2. cbn [orb]. rewrite andb_false_r. reflexivity. Qed.
+
+Lemma fold_loop_line us : forall s, ts_line (fold_left loop_unit us s) = end_line (ts_line s) us.
+Proof.
+  induction us as [|u r IH]; intros s; cbn [fold_left end_line]; [reflexivity|].
+  rewrite IH. f_equal. unfold loop_unit. cbn [ts_line].
+  destruct (u_nls u) as [|m]; cbn [ts_line]; [lia|].
+  assert (B : forall n t, ts_line (blank_lines n t) = ts_line t + n).
+  { induction n as [|n IHn]; intros t; cbn [blank_lines]; [lia|]. rewrite IHn. unfold blank_line. cbn [ts_line]. lia. }
+  rewrite B. cbn [ts_line]. lia.
+Qed.
+
+Lemma maybe_detach_many c : Nat.eqb (num_comments c + (if has_comment c then 1 else 0)) 1 = false ->
+  maybe_detach_comment c = c.
+Proof. intros H. unfold maybe_detach_comment. now rewrite H. Qed.
+
+Theorem pc_ref g : pc_uroles g = ref_roles g.
+Proof.
+  change (pc_uroles g) with (roles_of (run_gap g)).
+  destruct g as [prev p us next]. unfold run_gap, ref_roles. cbn [g_prev g_pre g_units g_next].
+  destruct prev.
+  - destruct p as [|p'].
+    + (* the first comment, if any, is on the line of the previous token *)
+      destruct us as [|u1 r]; [reflexivity|].
+      cbn [andb Nat.eqb].
+      rewrite (read_idle coll_init u1 idle_init).
+      rewrite blank_lines_flushed.
+      set (c1 := flush (open_c coll_init [u1] u1)).
+      assert (Hc1 : core c1 = (false, 1, true, [u1], [])) by reflexivity.
+      assert (Hi1 : idle c1) by apply flush_open_idle.
+      set (L := u_k u1 + match u_nls u1 with 0 => 0 | S _ => 1 end + pred (u_nls u1)).
+      assert (HL : L = u_k u1 + u_nls u1) by (unfold L; destruct (u_nls u1); cbn; lia).
+      destruct r as [|u2 r'].
+      * cbn [fold_left last]. unfold finish. cbn [ts_c ts_line].
+        rewrite (flush_idle c1 Hi1).
+        replace ((0 =? L) || ((if u_blk u1 then u_k u1 else 0) =? L)) with (u_nls u1 =? 0).
+        2:{ rewrite HL. unfold u_k. destruct (u_blk u1).
+            - destruct (Nat.eqb_spec (u_nls u1) 0), (Nat.eqb_spec 0 (count_nl (u_text u1) + u_nls u1)),
+                (Nat.eqb_spec (count_nl (u_text u1)) (count_nl (u_text u1) + u_nls u1)); cbn; try reflexivity; lia.
+            - cbn [Nat.add]. destruct (Nat.eqb_spec (u_nls u1) 0), (Nat.eqb_spec 0 (u_nls u1)); cbn; try reflexivity; lia. }
+        destruct (if is_scope_end next then c1 else c1) eqn:Ec; rewrite <- Ec; clear Ec.
+        replace (if is_scope_end next then c1 else c1) with c1 by (destruct (is_scope_end next); reflexivity).
+        destruct (negb (is_eof next) && (u_nls u1 =? 0)); reflexivity.
+      * rewrite last_cons.
+        assert (Hline : forall s, ts_line s = L -> ts_line (fold_left loop_unit (u2 :: r') s) <> 0 \/ True) by (intros; now right).
+        unfold finish.
+        set (s := fold_left loop_unit (u2 :: r') (mkts c1 L)).
+        destruct (loop_from_idle c1 L u2 r' next Hi1) as (_ & cF & HcF & H). fold s in HcF.
+        rewrite HcF. rewrite Hc1 in H.
+        assert (Hmd : maybe_detach_comment cF = cF).
+        { apply maybe_detach_many.
+          destruct (Nat.leb 2 (u_nls (last r' u2)) || is_scope_end next).
+          - destruct H as [Hh Hcore]. rewrite push_all_flushed in Hcore. unfold core in Hcore.
+            injection Hcore as _ Hnum _ _ _. rewrite Hnum, Hh.
+            pose proof (rgroups_nonnil [u2] u2 r') as Hn. destruct (rgroups [u2] u2 r'); [congruence|]. reflexivity.
+          - destruct H as (Hh & _ & Hcore). rewrite push_all_flushed in Hcore. unfold core in Hcore.
+            injection Hcore as _ Hnum _ _ _. rewrite Hnum, Hh.
+            apply Nat.eqb_neq. lia. }
+        replace (if negb (is_eof next) && _ then maybe_detach_comment cF else cF) with cF
+          by (destruct (negb (is_eof next) && _); [now rewrite Hmd|reflexivity]).
+        unfold split_last.
+        destruct (Nat.leb 2 (u_nls (last r' u2)) || is_scope_end next).
+        -- destruct H as [Hh Hcore]. rewrite push_all_flushed in Hcore. cbn [app] in Hcore.
+           apply (roles_of_flushed _ _ _ _ _ _ Hh Hcore).
+        -- destruct H as (Hh & Hb & Hcore). rewrite push_all_flushed in Hcore. cbn [app] in Hcore.
+           apply (roles_of_open _ _ _ _ _ _ _ Hh Hb Hcore).
+    + (* the first comment is on a later line *)
+      cbn [andb Nat.eqb]. rewrite blank_lines_init.
+      set (c := if p' =? 0 then coll_init else cd).
+      assert (Hi : idle c) by (unfold c; destruct (p' =? 0); [apply idle_init|apply idle_cd]).
+      assert (Hc : core c = (Nat.leb (S p') 1, 0, false, [], [])).
+      { unfold c. destruct p'; reflexivity. }
+      rewrite finish_plain.
+      2:{ rewrite fold_loop_line. cbn [ts_line].
+          pose proof (end_line_ge us (1 + p')). apply Nat.eqb_neq. lia. }
+      2:{ reflexivity. }
+      destruct us as [|u1 r].
+      * cbn [fold_left ts_c]. rewrite (flush_idle c Hi). unfold c. destruct (p' =? 0), (is_scope_end next); reflexivity.
+      * apply (run_from_start _ c (1 + p') u1 r next Hi Hc).
+  - (* start of the file *)
+    cbn [andb]. unfold cd in *. fold cd. rewrite blank_lines_cd.
+    rewrite finish_plain by reflexivity.
+    destruct us as [|u1 r].
+    + cbn [fold_left ts_c]. rewrite (flush_idle cd idle_cd). destruct (is_scope_end next); reflexivity.
+    + apply (run_from_start false cd (0 + p) u1 r next idle_cd eq_refl).
+Qed.
+
+(* ================================================================ who gets which comment *)
+Theorem attribution_eq_lemma : forall cf g,
+  wf_gap g -> (g_next g = NSep -> fix_sep cf = true) ->
+  obs_roles (g_next g) (go_uroles cf false g) = obs_roles (g_next g) (pc_uroles g).
+Proof. intros cf g Hwf Hsep. rewrite (go_ref cf g Hwf Hsep), pc_ref. reflexivity. Qed.
+
+(* ================================================================ the roles split the comments of the gap *)
+Lemma group_loop_concat cs : forall single line grp, concat (group_loop single line grp cs) = grp ++ cs.
+Proof.
+  induction cs as [|c r IH]; intros single line grp; cbn [group_loop concat].
+  - now rewrite app_nil_r.
+  - destruct (negb (negb (c_blk c)) || negb (eqb single (negb (c_blk c))) || (line + 1 <? c_s c)); cbn [concat].
+    + rewrite IH. reflexivity.
+    + rewrite IH. rewrite <- app_assoc. reflexivity.
+Qed.
+
+Lemma group_comments_concat cs : concat (group_comments cs) = cs.
+Proof. destruct cs as [|c r]; [reflexivity|]. unfold group_comments. apply group_loop_concat. Qed.
+
+Lemma set_prev_split prev next st : let '(a, b) := set_prev prev next st in a ++ b = l_cms st.
+Proof.
+  unfold set_prev. destruct (l_cms st) as [|c0 rest]; [reflexivity|].
+  destruct (negb prev); [reflexivity|].
+  destruct ((0 <? _) && (0 <? l_md st)); [|reflexivity].
+  destruct (negb (c_blk c0) || _ || _); reflexivity.
+Qed.
+
+Lemma maybe_donate_split cf extra E next lead :
+  let '(t, d) := maybe_donate cf extra E next lead in t ++ concat d = concat lead.
+Proof.
+  unfold maybe_donate. destruct lead as [|g0 rest]; [reflexivity|].
+  destruct (1 <? first_s g0); [reflexivity|].
+  destruct rest as [|g1 rest']; [|reflexivity].
+  destruct (last_e g0 + 1 <? E); [reflexivity|].
+  destruct (is_closer_or_eof cf extra next); [|reflexivity].
+  destruct (negb extra && _ && _ && _); reflexivity.
+Qed.
+
+Lemma concat_removelast_last {A} (l : list (list A)) : l <> [] -> concat (removelast l) ++ last l [] = concat l.
+Proof.
+  intros H. rewrite (app_removelast_last [] H) at 3. rewrite concat_app. cbn [concat]. now rewrite app_nil_r.
+Qed.
+
+Lemma maybe_attach_split prev E ht lead :
+  let '(d, l) := maybe_attach prev E ht lead in concat d ++ l = concat lead.
+Proof.
+  unfold maybe_attach. destruct lead as [|g0 rest]; [reflexivity|].
+  match goal with |- context [if ?b then (g0 :: rest, []) else _] => destruct b end.
+  - now rewrite app_nil_r.
+  - destruct (E <=? last_e (last (g0 :: rest) []) + 1).
+    + apply concat_removelast_last. discriminate.
+    + now rewrite app_nil_r.
+Qed.
+
+Theorem roles_partition_lemma : forall cf extra g,
+  let '(t, d, l) := go_roles cf extra g in
+  t ++ concat d ++ l = layout (g_pre g) 0 (g_units g).
+Proof.
+  intros cf extra g. rewrite go_roles_phase2. unfold phase2.
+  rewrite lex_gap_spec. cbn [l_cur].
+  set (st := mklexst (end_line (g_pre g) (g_units g)) (md_final (g_pre g) (g_units g)) (layout (g_pre g) 0 (g_units g))).
+  pose proof (set_prev_split (g_prev g) (g_next g) st) as S1.
+  assert (Hnp : fst (set_prev false (g_next g) st) = [])
+    by (unfold set_prev; destruct (l_cms st); reflexivity).
+  set (E := end_line (g_pre g) (g_units g)) in *.
+  destruct (g_prev g).
+  - destruct (set_prev true (g_next g) st) as [tl ll]. cbn [l_cms st] in S1. rewrite <- S1.
+    pose proof (group_comments_concat ll) as GC.
+    destruct tl as [|x tl'].
+    + pose proof (maybe_donate_split cf extra E (g_next g) (group_comments ll)) as D.
+      destruct (maybe_donate cf extra E (g_next g) (group_comments ll)) as [t d1].
+      pose proof (maybe_attach_split true E (match t with [] => false | _ :: _ => true end) d1) as A.
+      destruct (maybe_attach true E (match t with [] => false | _ :: _ => true end) d1) as [d2 l].
+      rewrite A, D, GC. reflexivity.
+    + pose proof (maybe_attach_split true E true (group_comments ll)) as A.
+      destruct (maybe_attach true E true (group_comments ll)) as [d2 l].
+      rewrite A, GC. reflexivity.
+  - destruct (set_prev false (g_next g) st) as [tl ll]. cbn [fst] in Hnp. subst tl.
+    cbn [l_cms st app] in S1. rewrite <- S1.
+    pose proof (group_comments_concat ll) as GC.
+    pose proof (maybe_attach_split false E false (group_comments ll)) as A.
+    destruct (maybe_attach false E false (group_comments ll)) as [d2 l].
+    cbn [app]. rewrite A, GC. reflexivity.
+Qed.
+
+(* ================================================================ from roles to texts *)
+Lemma map_cu_layout us : forall line idx, map c_u (layout line idx us) = us.
+Proof. induction us as [|u r IH]; intros line idx; cbn [layout map c_u]; [reflexivity|]. now rewrite IH. Qed.
+
+Lemma combine_units cf grp : combine cf grp = flat_map (go_ctext cf) (map c_u grp).
+Proof. unfold combine. induction grp as [|c r IH]; cbn [flat_map map]; [reflexivity|]. now rewrite IH. Qed.
+
+Definition set_field_u (cf : cfg) (grp : list cunit) : option (list N) :=
+  if nonempty grp
+  then (if fix_empty cf then (match flat_map (go_ctext cf) grp with [] => None | s => Some s end)
+        else Some (flat_map (go_ctext cf) grp))
+  else None.
+
+Definition go_out (cf : cfg) (r : roles) : comments_out :=
+  let '(t, d, l) := r in (set_field_u cf t, map (flat_map (go_ctext cf)) d, set_field_u cf l).
+
+Definition pc_out (r : roles) : comments_out :=
+  let '(t, d, l) := r in (attach (render t), map render d, attach (render l)).
+
+Lemma set_field_units cf grp : set_field cf grp = set_field_u cf (map c_u grp).
+Proof. unfold set_field, set_field_u. rewrite combine_units. destruct grp; reflexivity. Qed.
+
+Lemma go_attribution_out cf extra g : go_attribution_mode cf extra g = go_out cf (go_uroles cf extra g).
+Proof.
+  unfold go_attribution_mode, go_uroles, go_out. destruct (go_roles cf extra g) as [[t d] l].
+  rewrite !set_field_units. f_equal. f_equal. rewrite map_map. apply map_ext. intros a. apply combine_units.
+Qed.
+
+Lemma next_with_comments_out g : next_with_comments g = pc_out (pc_uroles g).
+Proof.
+  unfold next_with_comments, pc_out, pc_uroles. destruct (has_comment (run_gap g)); reflexivity.
+Qed.
+
+Lemma observable_go_out cf next r : observable next (go_out cf r) = go_out cf (obs_roles next r).
+Proof. unfold observable, obs_roles. destruct r as [[t d] l]. destruct (is_scope_end next); reflexivity. Qed.
+
+Lemma observable_pc_out next r : observable next (pc_out r) = pc_out (obs_roles next r).
+Proof. unfold observable, obs_roles. destruct r as [[t d] l]. destruct (is_scope_end next); reflexivity. Qed.
+
+Definition all_units (r : roles) : list cunit := fst (fst r) ++ concat (snd (fst r)) ++ snd r.
+
+Lemma go_uroles_units cf extra g : all_units (go_uroles cf extra g) = g_units g.
+Proof.
+  pose proof (roles_partition_lemma cf extra g) as P. unfold go_uroles, all_units.
+  destruct (go_roles cf extra g) as [[t d] l]. cbn [fst snd].
+  rewrite <- (map_cu_layout (g_units g) (g_pre g) 0), <- P.
+  rewrite !map_app, concat_map. reflexivity.
+Qed.
+
+Lemma obs_units next r : incl (all_units (obs_roles next r)) (all_units r).
+Proof.
+  unfold obs_roles, all_units. destruct r as [[t d] l]. destruct (is_scope_end next); cbn [fst snd concat app].
+  - rewrite app_nil_r. apply incl_appl, incl_refl.
+  - apply incl_refl.
+Qed.
+
+(* the comments of the gap on which the code as configured and protoc produce the same text and the same
+   presence of the field *)
+Definition unit_ok (cf : cfg) (u : cunit) : Prop :=
+  text_ok cf u = true /\ (fix_empty cf = true \/ spec_content u <> []).
+Definition gap_ok (cf : cfg) (g : gap) : Prop := Forall (unit_ok cf) (g_units g).
+
+Lemma render_ok cf grp : Forall (unit_ok cf) grp -> flat_map (go_ctext cf) grp = render grp.
+Proof.
+  intros H. unfold render. apply flat_map_ext_in. intros u Hu. rewrite Forall_forall in H.
+  apply combine_comments_text_lemma. apply (H u Hu).
+Qed.
+
+Lemma set_field_ok cf grp : Forall (unit_ok cf) grp -> set_field_u cf grp = attach (render grp).
+Proof.
+  intros H. unfold set_field_u. rewrite (render_ok cf grp H).
+  destruct grp as [|u r]; [reflexivity|]. cbn [nonempty].
+  destruct (fix_empty cf) eqn:Fe; [unfold attach; destruct (render (u :: r)); reflexivity|].
+  inversion H as [|? ? [_ [Hf|Hne]] _]; subst; [congruence|].
+  unfold render. cbn [flat_map]. destruct (spec_content u) eqn:S; [congruence|]. reflexivity.
+Qed.
+
+Lemma go_pc_out cf r : Forall (unit_ok cf) (all_units r) -> go_out cf r = pc_out r.
+Proof.
+  destruct r as [[t d] l]. unfold all_units. cbn [fst snd]. intros H.
+  apply Forall_app in H. destruct H as [Ht H]. apply Forall_app in H. destruct H as [Hd Hl].
+  unfold go_out, pc_out. rewrite (set_field_ok cf t Ht), (set_field_ok cf l Hl). f_equal. f_equal.
+  apply map_ext_in. intros grp Hg. apply render_ok.
+  rewrite Forall_forall in *. intros u Hu. apply Hd. apply in_concat. exists grp. split; assumption.
+Qed.
+
+Theorem comments_eq_lemma : forall cf g,
+  wf_gap g -> (g_next g = NSep -> fix_sep cf = true) -> gap_ok cf g ->
+  observable (g_next g) (go_attribution_mode cf false g) = observable (g_next g) (next_with_comments g).
+Proof.
+  intros cf g Hwf Hsep Hok.
+  rewrite go_attribution_out, next_with_comments_out, observable_go_out, observable_pc_out.
+  rewrite <- (attribution_eq_lemma cf g Hwf Hsep).
+  apply go_pc_out.
+  rewrite Forall_forall. intros u Hu. apply obs_units in Hu. rewrite go_uroles_units in Hu.
+  unfold gap_ok in Hok. rewrite Forall_forall in Hok. now apply Hok.
+Qed.
+
+(* the code as it is *)
+Theorem comments_eq_partial_lemma : forall g,
+  wf_gap g -> g_next g <> NSep -> gap_ok cfg_asis g ->
+  observable (g_next g) (go_attribution g) = observable (g_next g) (next_with_comments g).
+Proof. intros g Hwf Hn Hok. apply comments_eq_lemma; [exact Hwf|congruence|exact Hok]. Qed.
+
+(* with the three repairs: every gap *)
+Theorem comments_eq_fixed_lemma : forall g,
+  wf_gap g -> observable (g_next g) (go_attribution_fixed g) = observable (g_next g) (next_with_comments g).
+Proof.
+  intros g Hwf. apply comments_eq_lemma; [exact Hwf|reflexivity|].
+  unfold gap_ok. rewrite Forall_forall. intros u _. split; [|left; reflexivity].
+  unfold text_ok. destruct (u_blk u); [|reflexivity]. cbn [negb orb].
+  apply forallb_forall. intros x _. apply line_ok_fixed.
+Qed.
+
+(* the three classes of gaps on which the code as it is differs from protoc *)
+Definition g_sep : gap := mkgap true 1 [mkunit false [32; 99]%N 1] NSep.        (* newline, // c, newline, ; *)
+Definition g_empty : gap := mkgap true 1 [mkunit true []%N 1] NOther.          (* newline, an empty block comment, newline *)
+Definition g_cr : gap := mkgap true 1 [mkunit true [32; 97; 13; 10; 13; 10; 32; 98; 32]%N 1] NOther.
+
+Theorem comments_eq_refuted_lemma :
+  (wf_gap g_sep /\ observable (g_next g_sep) (go_attribution g_sep) <> observable (g_next g_sep) (next_with_comments g_sep)) /\
+  (wf_gap g_empty /\ observable (g_next g_empty) (go_attribution g_empty) <> observable (g_next g_empty) (next_with_comments g_empty)) /\
+  (wf_gap g_cr /\ observable (g_next g_cr) (go_attribution g_cr) <> observable (g_next g_cr) (next_with_comments g_cr)).
+Proof.
+  repeat split; try (cbn; intros; discriminate); vm_compute; discriminate.
+Qed.
+
+(* ================================================================ commentsUsed: a comment is emitted once *)
+Lemma cid_eqb_eq a b : cid_eqb a b = true <-> a = b.
+Proof.
+  unfold cid_eqb. destruct a as [a1 a2], b as [b1 b2]. cbn [fst snd]. rewrite andb_true_iff, !Nat.eqb_eq.
+  split; [intros [-> ->]; reflexivity|intros E; injection E; auto].
+Qed.
+
+Lemma used_in c used : existsb (cid_eqb c) used = true <-> In c used.
+Proof.
+  rewrite existsb_exists. split.
+  - intros (x & Hx & E). apply cid_eqb_eq in E. now subst.
+  - intros H. exists c. split; [exact H|now apply cid_eqb_eq].
+Qed.
+
+(* one lookup in the commentsUsed map for a side (the leading side or the trailing side of a gap) and
+   what is then written to the location *)
+Definition step (st : list cid * list cid) (S : list cid) : list cid * list cid :=
+  let '(used, out) := st in
+  let '(u, used') := comment_used used S in (used', if u then out else out ++ S).
+
+Section Once.
+  Variable F : list cid -> Prop.
+  Hypothesis F_nodup : forall S, F S -> NoDup S.
+  Hypothesis F_sep : forall S S', F S -> F S' -> S = S' \/ (forall x, In x S -> ~ In x S').
+
+  Definition inv (st : list cid * list cid) : Prop :=
+    NoDup (snd st) /\
+    forall x, In x (snd st) -> exists S c r, F S /\ S = c :: r /\ In x S /\ In c (fst st).
+
+  Lemma step_inv st S : F S -> inv st -> inv (step st S).
+  Proof.
+    intros HF [Hnd Hblk]. destruct st as [used out]. cbn [fst snd] in *. unfold step, comment_used.
+    destruct S as [|c r].
+    - cbn [app]. rewrite app_nil_r. split; assumption.
+    - destruct (existsb (cid_eqb c) used) eqn:U.
+      + split; assumption.
+      + assert (Hc : ~ In c used) by (rewrite <- used_in; congruence).
+        split; cbn [fst snd].
+        * (* out ++ c :: r has no duplicates *)
+          assert (Hdis : forall x, In x (c :: r) -> ~ In x out).
+          { intros x Hx Ho. destruct (Hblk x Ho) as (S' & c' & r' & HF' & E' & Hin' & Hu').
+            destruct (F_sep _ _ HF HF') as [Eq|Dis].
+            - rewrite E' in Eq. injection Eq as -> _. contradiction.
+            - exact (Dis x Hx Hin'). }
+          clear -Hnd Hdis HF F_nodup. pose proof (F_nodup _ HF) as Hs.
+          revert Hnd Hdis. induction out as [|a out IH]; intros Hnd Hdis; cbn [app]; [exact Hs|].
+          inversion Hnd as [|? ? Ha Hnd']; subst. constructor.
+          -- rewrite in_app_iff. intros [H|H]; [contradiction|]. apply (Hdis a H). now left.
+          -- apply IH; [exact Hnd'|]. intros x Hx Ho. apply (Hdis x Hx). now right.
+        * intros x Hx. rewrite in_app_iff in Hx. destruct Hx as [Hx|Hx].
+          -- destruct (Hblk x Hx) as (S' & c' & r' & HF' & E' & Hin' & Hu').
+             exists S', c', r'. repeat split; try assumption. now right.
+          -- exists (c :: r), c, r. repeat split; try assumption. now left.
+  Qed.
+
+  Lemma steps_inv sides : Forall F sides -> forall st, inv st -> inv (fold_left step sides st).
+  Proof.
+    induction 1 as [|S sides HS _ IH]; intros st Hst; cbn [fold_left]; [exact Hst|].
+    apply IH. now apply step_inv.
+  Qed.
+End Once.
+
+(* the sides of the gaps of one file *)
+Definition lead_side (cf : cfg) (extra : bool) (gaps : list gap) (gi : nat) : list cid :=
+  let '(_, d, l) := go_roles cf extra (gap_at gaps gi) in concat (map (ids gi) d) ++ ids gi l.
+Definition trail_side (cf : cfg) (extra : bool) (gaps : list gap) (gi : nat) : list cid :=
+  let '(t, _, _) := go_roles cf extra (gap_at gaps gi) in ids gi t.
+
+Definition side (cf : cfg) (extra : bool) (gaps : list gap) (S : list cid) : Prop :=
+  exists gi, S = lead_side cf extra gaps gi \/ S = trail_side cf extra gaps gi.
+
+Lemma layout_idx us : forall line idx, map c_idx (layout line idx us) = seq idx (length us).
+Proof. induction us as [|u r IH]; intros line idx; cbn [layout map length seq c_idx]; [reflexivity|]. now rewrite IH. Qed.
+
+Lemma ids_app gi a b : ids gi (a ++ b) = ids gi a ++ ids gi b.
+Proof. unfold ids. apply map_app. Qed.
+
+Lemma ids_concat gi d : ids gi (concat d) = concat (map (ids gi) d).
+Proof. unfold ids. apply concat_map. Qed.
+
+Lemma sides_of_gap cf extra gaps gi :
+  trail_side cf extra gaps gi ++ lead_side cf extra gaps gi
+  = map (fun i => (gi, i)) (seq 0 (length (g_units (gap_at gaps gi)))).
+Proof.
+  unfold trail_side, lead_side. pose proof (roles_partition_lemma cf extra (gap_at gaps gi)) as P.
+  destruct (go_roles cf extra (gap_at gaps gi)) as [[t d] l].
+  rewrite <- ids_concat, <- !ids_app, P. unfold ids.
+  rewrite <- (layout_idx (g_units (gap_at gaps gi)) (g_pre (gap_at gaps gi)) 0). rewrite map_map. reflexivity.
+Qed.
+
+Lemma side_gap cf extra gaps gi x :
+  In x (trail_side cf extra gaps gi ++ lead_side cf extra gaps gi) -> fst x = gi.
+Proof. rewrite sides_of_gap, in_map_iff. intros (i & <- & _). reflexivity. Qed.
+
+Lemma sides_nodup cf extra gaps gi : NoDup (trail_side cf extra gaps gi ++ lead_side cf extra gaps gi).
+Proof.
+  rewrite sides_of_gap. apply FinFun.Injective_map_NoDup; [|apply seq_NoDup].
+  intros a b E. now injection E.
+Qed.
+
+Lemma nodup_app_parts {A} (a b : list A) : NoDup (a ++ b) -> NoDup a /\ NoDup b.
+Proof.
+  induction a as [|y a IH]; intros H; cbn [app] in H; [split; [constructor|exact H]|].
+  inversion H as [|? ? Hy H']; subst. destruct (IH H') as [Ha Hb]. split; [|exact Hb].
+  constructor; [|exact Ha]. intros Hin. apply Hy. rewrite in_app_iff. now left.
+Qed.
+
+Lemma side_nodup cf extra gaps S : side cf extra gaps S -> NoDup S.
+Proof.
+  intros [gi [-> | ->]]; pose proof (sides_nodup cf extra gaps gi) as H.
+  - exact (proj2 (nodup_app_parts _ _ H)).
+  - exact (proj1 (nodup_app_parts _ _ H)).
+Qed.
+
+Lemma nodup_app_disjoint {A} (a b : list A) : NoDup (a ++ b) -> forall x, In x a -> ~ In x b.
+Proof.
+  induction a as [|y a IH]; intros H x Hx; [contradiction|]. cbn [app] in H. inversion H as [|? ? Hy H']; subst.
+  destruct Hx as [->|Hx].
+  - intros Hb. apply Hy. rewrite in_app_iff. now right.
+  - now apply IH.
+Qed.
+
+Lemma side_sep cf extra gaps S S' : side cf extra gaps S -> side cf extra gaps S' ->
+  S = S' \/ (forall x, In x S -> ~ In x S').
+Proof.
+  intros [gi HS] [gj HS'].
+  destruct (Nat.eq_dec gi gj) as [->|Hne].
+  - pose proof (sides_nodup cf extra gaps gj) as Hnd.
+    destruct HS as [-> | ->], HS' as [-> | ->]; try (left; reflexivity); right.
+    + intros x Hl Ht. exact (nodup_app_disjoint _ _ Hnd x Ht Hl).
+    + exact (nodup_app_disjoint _ _ Hnd).
+  - right. intros x Hx Hx'. apply Hne.
+    assert (Hi : fst x = gi) by (apply (side_gap cf extra gaps gi); rewrite in_app_iff; destruct HS as [-> | ->]; [right|left]; exact Hx).
+    assert (Hj : fst x = gj) by (apply (side_gap cf extra gaps gj); rewrite in_app_iff; destruct HS' as [-> | ->]; [right|left]; exact Hx').
+    congruence.
+Qed.
+
+(* groups are never empty *)
+Definition nonnil (g : list lcm) : Prop := g <> [].
+
+Lemma group_loop_nonnil_groups cs : forall single line grp, grp <> [] -> Forall nonnil (group_loop single line grp cs).
+Proof.
+  induction cs as [|c r IH]; intros single line grp Hg; cbn [group_loop].
+  - constructor; [exact Hg|constructor].
+  - destruct (negb (negb (c_blk c)) || negb (eqb single (negb (c_blk c))) || (line + 1 <? c_s c)).
+    + constructor; [exact Hg|]. apply IH. discriminate.
+    + apply IH. destruct grp; discriminate.
+Qed.
+
+Lemma group_comments_nonnil cs : Forall nonnil (group_comments cs).
+Proof. destruct cs as [|c r]; [constructor|]. apply group_loop_nonnil_groups. discriminate. Qed.
+
+Lemma Forall_removelast {A} (P : A -> Prop) l : Forall P l -> Forall P (removelast l).
+Proof.
+  induction 1 as [|a l Ha Hl IH]; [constructor|]. cbn [removelast]. destruct l; [constructor|].
+  constructor; assumption.
+Qed.
+
+Lemma maybe_donate_nonnil cf extra E next lead : Forall nonnil lead ->
+  Forall nonnil (snd (maybe_donate cf extra E next lead)).
+Proof.
+  intros H. unfold maybe_donate. destruct lead as [|g0 rest]; [constructor|].
+  destruct (1 <? first_s g0); [exact H|].
+  inversion H as [|? ? H0 Hr]; subst.
+  destruct rest as [|g1 rest']; [|exact Hr].
+  destruct (last_e g0 + 1 <? E); [constructor|].
+  destruct (is_closer_or_eof cf extra next); [|exact H].
+  destruct (negb extra && _ && _ && _); [exact H|constructor].
+Qed.
+
+Lemma maybe_attach_nonnil prev E ht lead : Forall nonnil lead ->
+  Forall nonnil (fst (maybe_attach prev E ht lead)).
+Proof.
+  intros H. unfold maybe_attach. destruct lead as [|g0 rest]; [constructor|].
+  match goal with |- context [if ?b then (g0 :: rest, []) else _] => destruct b end; [exact H|].
+  destruct (E <=? last_e (last (g0 :: rest) []) + 1); [|exact H].
+  apply Forall_removelast. exact H.
+Qed.
+
+Lemma go_roles_nonnil cf extra g : Forall nonnil (snd (fst (go_roles cf extra g))).
+Proof.
+  rewrite go_roles_phase2. unfold phase2.
+  destruct (set_prev (g_prev g) (g_next g) (lex_gap g)) as [tl ll].
+  pose proof (group_comments_nonnil ll) as G.
+  set (E := l_cur (lex_gap g)).
+  assert (H1 : Forall nonnil (snd (if g_prev g then match tl with
+                                     | [] => maybe_donate cf extra E (g_next g) (group_comments ll)
+                                     | _ :: _ => (tl, group_comments ll) end else ([], group_comments ll)))).
+  { destruct (g_prev g); [|exact G]. destruct tl; [apply maybe_donate_nonnil; exact G|exact G]. }
+  destruct (if g_prev g then match tl with
+                             | [] => maybe_donate cf extra E (g_next g) (group_comments ll)
+                             | _ :: _ => (tl, group_comments ll) end else ([], group_comments ll)) as [trail d1].
+  cbn [snd] in H1.
+  pose proof (maybe_attach_nonnil (g_prev g) E (match trail with [] => false | _ :: _ => true end) d1 H1) as H2.
+  destruct (maybe_attach (g_prev g) E (match trail with [] => false | _ :: _ => true end) d1) as [d2 l].
+  exact H2.
+Qed.
+
+(* what a location holds, in the order in which newLocWithGivenComments looks the comments up *)
+Definition loc_ids (o : loc) : list cid := (concat (o_det o) ++ o_lead o) ++ o_trail o.
+
+Lemma comment_used_head used d0 r l : d0 <> [] ->
+  comment_used used d0 = comment_used used (concat (d0 :: r) ++ l).
+Proof. intros H. destruct d0 as [|c d0']; [congruence|]. reflexivity. Qed.
+
+Lemma with_given_steps used opt path span t d l :
+  (forall d0 r, d = d0 :: r -> d0 <> []) ->
+  let '(o, used') := with_given used opt path span t d l in
+  fold_left step [concat d ++ l; t] (used, []) = (used', loc_ids o).
+Proof.
+  intros Hd. unfold with_given. cbn [fold_left]. unfold step at 2.
+  assert (E : (match d with d0 :: _ => comment_used used d0 | [] => comment_used used l end)
+              = comment_used used (concat d ++ l)).
+  { destruct d as [|d0 r]; [reflexivity|]. apply comment_used_head. exact (Hd d0 r eq_refl). }
+  rewrite E. destruct (comment_used used (concat d ++ l)) as [u1 used1].
+  unfold step. destruct (comment_used used1 t) as [u2 used2].
+  unfold loc_ids. destruct u1, u2; cbn [o_det o_lead o_trail concat app]; rewrite ?app_nil_r; reflexivity.
+Qed.
+
+Definition req_sides (cf : cfg) (extra : bool) (gaps : list gap) (r : req) : list (list cid) :=
+  let both := [lead_side cf extra gaps (r_lead r); trail_side cf extra gaps (r_trail r)] in
+  match r_kind r with
+  | KWithout => []
+  | KPlain => if extra then both else []
+  | KFull => both
+  end.
+
+Lemma step_shift1 used out S :
+  step (used, out) S = (fst (step (used, []) S), out ++ snd (step (used, []) S)).
+Proof.
+  unfold step. destruct (comment_used used S) as [u used']. cbn [fst snd app].
+  destruct u; [now rewrite app_nil_r|reflexivity].
+Qed.
+
+Lemma step_shift sides : forall used out,
+  fold_left step sides (used, out)
+  = (fst (fold_left step sides (used, [])), out ++ snd (fold_left step sides (used, []))).
+Proof.
+  induction sides as [|S sides IH]; intros used out; cbn [fold_left fst snd]; [now rewrite app_nil_r|].
+  rewrite (step_shift1 used out S).
+  destruct (step (used, []) S) as [u' o1] eqn:E1. cbn [fst snd].
+  rewrite (IH u' (out ++ o1)), (IH u' o1). cbn [fst snd]. now rewrite app_assoc.
+Qed.
+
+Lemma gen_req_steps cf extra gaps used r :
+  let '(o, used') := gen_req cf extra gaps used r in
+  fold_left step (req_sides cf extra gaps r) (used, []) = (used', loc_ids o).
+Proof.
+  unfold gen_req, req_sides.
+  assert (Full : let '(o, used') :=
+                   (let '(_, d, l) := go_roles cf extra (gap_at gaps (r_lead r)) in
+                    let '(t, _, _) := go_roles cf extra (gap_at gaps (r_trail r)) in
+                    with_given used (r_opt r) (r_path r) (r_span r) (ids (r_trail r) t)
+                               (map (ids (r_lead r)) d) (ids (r_lead r) l)) in
+                 fold_left step [lead_side cf extra gaps (r_lead r); trail_side cf extra gaps (r_trail r)] (used, [])
+                 = (used', loc_ids o)).
+  { unfold lead_side, trail_side.
+    pose proof (go_roles_nonnil cf extra (gap_at gaps (r_lead r))) as Hn.
+    destruct (go_roles cf extra (gap_at gaps (r_lead r))) as [[t1 d] l].
+    destruct (go_roles cf extra (gap_at gaps (r_trail r))) as [[t d2] l2].
+    cbn [fst snd] in Hn.
+    apply with_given_steps. intros d0 r0 E. destruct d as [|g0 d']; [discriminate|].
+    cbn [map] in E. injection E as <- _. inversion Hn as [|? ? H0 _]; subst.
+    unfold ids. destruct g0; [now elim H0|discriminate]. }
+  destruct (r_kind r).
+  - reflexivity.
+  - destruct extra; [exact Full|reflexivity].
+  - exact Full.
+Qed.
+
+Definition emitting (optlocs : bool) (r : req) : bool := negb (r_opt r && negb optlocs).
+
+Lemma gen_locs_steps cf extra optlocs gaps rs : forall used,
+  snd (fold_left step (flat_map (req_sides cf extra gaps) (filter (emitting optlocs) rs)) (used, []))
+  = flat_map loc_ids (gen_locs cf extra optlocs gaps used rs).
+Proof.
+  induction rs as [|r rest IH]; intros used; cbn [gen_locs filter flat_map fold_left snd]; [reflexivity|].
+  unfold emitting at 1. destruct (r_opt r && negb optlocs); cbn [negb].
+  - apply IH.
+  - cbn [flat_map]. rewrite fold_left_app.
+    pose proof (gen_req_steps cf extra gaps used r) as G.
+    destruct (gen_req cf extra gaps used r) as [o used'].
+    rewrite G. rewrite step_shift. cbn [snd flat_map]. rewrite IH. reflexivity.
+Qed.
+
+Theorem comment_used_once_lemma : forall cf extra optlocs gaps rs,
+  NoDup (flat_map loc_ids (gen_locs cf extra optlocs gaps [] rs)).
+Proof.
+  intros cf extra optlocs gaps rs. rewrite <- gen_locs_steps.
+  assert (HF : Forall (side cf extra gaps) (flat_map (req_sides cf extra gaps) (filter (emitting optlocs) rs))).
+  { rewrite Forall_forall. intros S HS. apply in_flat_map in HS. destruct HS as (r & _ & HS).
+    unfold req_sides in HS.
+    assert (B : In S [lead_side cf extra gaps (r_lead r); trail_side cf extra gaps (r_trail r)] -> side cf extra gaps S).
+    { intros [<-|[<-|[]]]; [exists (r_lead r); now left|exists (r_trail r); now right]. }
+    destruct (r_kind r); [destruct HS|destruct extra; [now apply B|destruct HS]|now apply B]. }
+  pose proof (steps_inv (side cf extra gaps) (side_nodup cf extra gaps) (side_sep cf extra gaps) _ HF ([], [])) as I.
+  destruct I as [I _]; [|exact I].
+  split; [constructor|intros x []].
 Qed.
